@@ -14,6 +14,7 @@ import (
 	"github.com/enbility/spine-go/internal/verifh/world"
 	"github.com/enbility/spine-go/internal/verifrt/vtime"
 	"github.com/enbility/spine-go/model"
+	"github.com/enbility/spine-go/spine"
 	"github.com/enbility/spine-go/util"
 )
 
@@ -180,6 +181,15 @@ func (c *c01World) deliver(cs c01Case, src, dst *model.FeatureAddressType, cmd m
 	case "none":
 		if total != 0 {
 			viol = append(viol, "a message that requires no response was answered | "+got)
+		}
+	case "oneresult":
+		// accepted or rejected is decided by the update rules (C02/C04): exactly one result either way
+		if nReply != 0 || total != 1 {
+			viol = append(viol, "a message with acknowledgement request is not answered with exactly one result | "+got)
+		}
+	case "resultiferr":
+		if nReply != 0 || nOK != 0 || total > 1 {
+			viol = append(viol, "a message without acknowledgement request is answered with something else than at most one error result | "+got)
 		}
 	case "atmostone":
 		if total > 1 {
@@ -482,7 +492,135 @@ func c01Families(thorough bool) []*engine.IFamily {
 			}
 			return r
 		}}
-	return []*engine.IFamily{matrix, nm, rejected}
+	apiBuilt := &engine.IFamily{Name: "commands-built-by-the-api", Chunks: len(types),
+		Rule: "the datagrams another spine-go device sends: for every function of every feature type, the commands FunctionDataCmd builds — read, read+selector, read+elements (to the local server feature: exactly one reply), reply and notify/write in the shapes full, partial, partial+selector, delete+selector, delete+elements (notify to the local client feature, write from the bound peer to the local server feature: exactly one result when an acknowledgement is requested, at most an error result otherwise); selectors and elements generated reflectively; non-trivial: a response is expected",
+		Run: func(chunk int) engine.IResult {
+			var r engine.IResult
+			now := staticNow
+			vtime.StaticNow = &now
+			defer func() { vtime.StaticNow = nil }()
+			t := types[chunk]
+			fail := func(cs c01Case, shape, v string) {
+				r.NFails++
+				key := fmt.Sprintf("%s | classifier=%s shape=%s type=%s", strings.SplitN(v, " | ", 2)[0], cs.class, shape, t.ft)
+				for _, f := range r.Fails {
+					if f.Key == key {
+						return
+					}
+				}
+				r.Fails = append(r.Fails, engine.IFail{Key: key, Msg: fmt.Sprintf("%s\nfunction=%s ack=%v", v, cs.fn, cs.ack), Input: fmt.Sprintf("%s/%s/%s/%v", cs.class, cs.fn, shape, cs.ack)})
+			}
+			registered := map[model.FunctionType]bool{}
+			for _, fd := range t.fns {
+				registered[fd.FunctionType()] = true
+			}
+			res := rt.Execute(rt.Config{Horizon: 2000000}, func() {
+				c := newC01World(types, true)
+				// the peer's own function data objects (a second set from the factory), filled like a peer would
+				peerFds := spine.CreateFunctionData[api.FunctionDataCmdInterface](t.ft)
+				for _, fd := range peerFds {
+					fn := fd.FunctionType()
+					if _, ok := c.writab[fn]; !ok {
+						continue
+					}
+					pt := reflect.TypeOf(fd.DataCopyAny()).Elem()
+					data := reflect.New(pt)
+					data.Elem().Set(refl.Fill(pt, 2, 2))
+					if _, err := fd.UpdateDataAny(false, true, data.Interface(), nil, nil); err != nil {
+						continue
+					}
+					selT, hasSel := selectorsType(fn)
+					elT, hasEl := elementsType(fn)
+					if !strings.HasSuffix(string(fn), "ListData") && registered[model.FunctionType(strings.TrimSuffix(string(fn), "Data")+"ListData")] {
+						hasEl = false
+					}
+					var sel, el any
+					if hasSel {
+						v := reflect.New(selT)
+						v.Elem().Set(refl.Fill(selT, 1, 1))
+						sel = v.Interface()
+					}
+					if hasEl {
+						v := reflect.New(elT)
+						v.Elem().Set(refl.Fill(elT, 1, 1))
+						el = v.Interface()
+					}
+					ti := chunk
+					for _, sh := range cmdShapes {
+						if (sh.needSel && !hasSel) || (sh.needEl && !hasEl) {
+							continue
+						}
+						var cmd model.CmdType
+						func() {
+							defer func() {
+								if recover() != nil {
+									cmd = model.CmdType{}
+								}
+							}()
+							cmd = sh.build(fd, sel, el)
+						}()
+						if _, err := cmd.Data(); err != nil {
+							continue // the builder itself is C18's subject
+						}
+						for _, ack := range []bool{false, true} {
+							isRead := strings.HasPrefix(sh.name, "read")
+							var cases []struct {
+								class    model.CmdClassifierType
+								src, dst *model.FeatureAddressType
+								ref      *model.MsgCounterType
+							}
+							cli, srv := world.FAddr("dA", []uint{1}, uint(2*ti+1)), world.FAddr("dA", []uint{1}, uint(2*ti+2))
+							type cse = struct {
+								class    model.CmdClassifierType
+								src, dst *model.FeatureAddressType
+								ref      *model.MsgCounterType
+							}
+							switch {
+							case isRead:
+								cases = append(cases, cse{model.CmdClassifierTypeRead, cli, c.srv[t.ft].Address(), nil})
+							case sh.name == "reply":
+								cases = append(cases, cse{model.CmdClassifierTypeReply, srv, c.cli[t.ft].Address(), ptrCtr(1)})
+							default:
+								cases = append(cases, cse{model.CmdClassifierTypeNotify, srv, c.cli[t.ft].Address(), nil})
+								if c.writab[fn] {
+									cases = append(cases, cse{model.CmdClassifierTypeWrite, cli, c.srv[t.ft].Address(), nil})
+								}
+							}
+							for _, k := range cases {
+								cs := c01Case{class: k.class, ack: ack, dest: "server", fn: fn, peer: "A"}
+								switch {
+								case isRead:
+									cs.expect = "reply"
+									if sh.name == "read" {
+										cs.payload = world.JSON(c.srv[t.ft].DataCopy(fn))
+									}
+								case ack:
+									cs.expect = "oneresult"
+								default:
+									cs.expect = "resultiferr"
+								}
+								r.Evals++
+								if cs.expect != "resultiferr" {
+									r.Nontrivial++
+								}
+								for _, v := range c.deliver(cs, k.src, k.dst, cmd, k.ref) {
+									fail(cs, sh.name, v)
+								}
+							}
+						}
+					}
+				}
+			})
+			for _, p := range res.Panics {
+				r.NFails++
+				r.Fails = append(r.Fails, engine.IFail{Key: "panic in " + p.Frame + " | type=" + string(t.ft), Msg: p.Value})
+			}
+			if len(r.Samples) == 0 {
+				r.Samples = []string{"read+selector built by FunctionDataCmd.ReadCmdType -> expect exactly one reply"}
+			}
+			return r
+		}}
+	return []*engine.IFamily{matrix, nm, rejected, apiBuilt}
 }
 
 // c01Scenarios: messages of two connections processed at the same time are answered as if processed one
